@@ -61,6 +61,11 @@ Theorem hex_color_other_lengths : forall T d h ds, d = h :: ds -> lookup (h :: m
 Proof. exact CssColorProofs.hex_color_other_lengths. Qed.
 Print Assumptions hex_color_other_lengths.
 
+(* a zero keeps its unit unless the unit is a length unit (optionalZeroDimension, regenerated from css/table.go) *)
+Theorem css_zero_units_are_lengths : css_zero_dims_are_lengths css_zero_dimensions = true.
+Proof. vm_compute. reflexivity. Qed.
+Print Assumptions css_zero_units_are_lengths.
+
 (* non-vacuity *)
 Example box_nonvacuous :
   box_collapse_nat [1; 2; 1; 2]%nat = [1; 2]%nat /\ box_collapse_nat [1; 2; 3; 2]%nat = [1; 2; 3]%nat /\ box_collapse_nat [1; 2; 3; 4]%nat = [1; 2; 3; 4]%nat.
